@@ -1437,14 +1437,16 @@ impl<'a> Lexer<'a> {
                         for (i, (prim, frag)) in prims.into_iter().enumerate() {
                             let end = if i < prim_count - 1 {
                                 Loc {
-                                    col: start.col + frag.chars().count() as u16,
+                                    col: start.col.saturating_add(frag.chars().count() as u16),
                                     char_pos: start.char_pos + frag.chars().count() as u32,
                                     byte_pos: start.byte_pos + frag.len() as u32,
                                     ..start
                                 }
                             } else {
                                 Loc {
-                                    col: first_start.col + lowercase.chars().count() as u16,
+                                    col: first_start
+                                        .col
+                                        .saturating_add(lowercase.chars().count() as u16),
                                     char_pos: first_start.char_pos
                                         + lowercase.chars().count() as u32,
                                     byte_pos: first_start.byte_pos + lowercase.len() as u32,
